@@ -235,8 +235,8 @@ func checkEntity(c *mon.Case, e *entity, faults bool) {
 			continue
 		}
 		for i, b := range e.Blocks {
-			for ek := 0; ek < 4; ek++ {
-				if (ek == 1 || ek == 3) && i%3 != ek%3 && len(e.Blocks) > 12 {
+			for ek := 0; ek < 5; ek++ {
+				if (ek == 1 || ek == 3 || ek == 4) && i%3 != ek%3 && len(e.Blocks) > 12 {
 					continue // second error kind on a third of the blocks of big entities
 				}
 				if ek == 2 && ((form.Name != "preload-reifier" && form.Name != "preload-constructor-on-lazy-file") || (i%2 != 0 && len(e.Blocks) > 12)) {
@@ -252,6 +252,8 @@ func checkEntity(c *mon.Case, e *entity, faults bool) {
 					st.AbsentErr = traversal.SkipMe{}
 				} else if ek == 3 {
 					st.AbsentErr = fmt.Errorf("verif store: connection closed while reading block: %w", io.EOF)
+				} else if ek == 4 {
+					st.AbsentErr = io.EOF // a truncated block file
 				}
 				st.ResetLog()
 				var ferr error
